@@ -56,6 +56,7 @@ type World struct {
 	eventsDone []bool
 	untagged   []*rpcState
 	raw          *rawPeer
+	freeSetup    bool
 	parked       []*parkedYield
 	released     bool
 	capLifted    bool
@@ -297,6 +298,12 @@ func (w *World) setPhase(p string) {
 // return. There quiescence is decided by polling goroutine states instead
 // (every bubble goroutine durably blocked or waiting for a mutex).
 func (w *World) settle() {
+	if w.free {
+		// free-running: there is no quiescence to wait for; give started goroutines a moment
+		time.Sleep(300 * time.Microsecond)
+		w.observeTunnels()
+		return
+	}
 	for i := 0; ; i++ {
 		if w.polling() {
 			w.pollQuiescent()
@@ -743,6 +750,7 @@ func (w *World) openTunnel(spec TunnelSpec, fatal bool) bool {
 		t.rec.ServeStarted = true
 	case "rev", "nestedrev":
 		t.rec.Kind = "rev"
+		w.mu.Lock()
 		for len(w.servers) <= spec.Server {
 			rs := &revServer{idx: len(w.servers)}
 			rs.rs = grpctunnel.NewReverseTunnelServer(stub, fcOpt(cfg.ClientFC)...)
@@ -753,11 +761,18 @@ func (w *World) openTunnel(spec TunnelSpec, fatal bool) bool {
 			w.servers = append(w.servers, rs)
 		}
 		t.server = w.servers[spec.Server]
+		w.mu.Unlock()
 		go w.serveLoop(t)
 		w.settle()
 		w.mu.Lock()
 		opened := t.ch != nil
 		w.mu.Unlock()
+		for j := 0; w.free && !opened && j < 2000; j++ {
+			time.Sleep(500 * time.Microsecond)
+			w.mu.Lock()
+			opened = t.ch != nil || t.rec.ServeReturned >= 0
+			w.mu.Unlock()
+		}
 		t.rec.Opened = opened
 		if !opened {
 			if t.rec.OpenErr == "" {
@@ -851,11 +866,19 @@ func (w *World) channelFor(sel string) grpc.ClientConnInterface {
 	}
 	switch cfg.Dir {
 	case "fwd":
+		w.mu.Lock()
+		defer w.mu.Unlock()
 		return w.tunnels[0].ch
 	case "rev":
 		return w.handler.AsChannel()
 	case "nested", "nestedrev":
-		return w.tunnels[len(w.tunnels)-1].ch
+		w.mu.Lock()
+		defer w.mu.Unlock()
+		for i := len(w.tunnels) - 1; i >= 0; i-- {
+			if w.tunnels[i].inner {
+				return w.tunnels[i].ch
+			}
+		}
 	}
 	return nil
 }
@@ -877,10 +900,13 @@ func (w *World) observeTunnels() {
 	step := w.step
 	w.mu.Unlock()
 	for _, t := range ts {
-		if t.ch != nil && t.rec.DoneStep < 0 {
+		w.mu.Lock()
+		tch := t.ch
+		w.mu.Unlock()
+		if tch != nil && t.rec.DoneStep < 0 {
 			select {
-			case <-t.ch.Done():
-				err := t.ch.Err()
+			case <-tch.Done():
+				err := tch.Err()
 				w.mu.Lock()
 				t.rec.DoneStep = step
 				if err != nil {
@@ -1040,9 +1066,23 @@ func (w *World) actorLoop(a *Actor) {
 	for {
 		var op *opSpec
 		if w.free {
-			w.mu.Lock()
-			op = w.pullOpLocked(a)
-			w.mu.Unlock()
+			// free-running (stress engine): the actor steps itself; it only waits for its enabling condition
+			for {
+				w.mu.Lock()
+				ok := a.enabled == nil || a.enabled() || a.done
+				if ok {
+					op = w.pullOpLocked(a)
+				}
+				w.mu.Unlock()
+				if ok {
+					break
+				}
+				select {
+				case <-w.quit:
+					return
+				case <-time.After(20 * time.Microsecond):
+				}
+			}
 			if op == nil {
 				return
 			}
@@ -1070,6 +1110,9 @@ func (w *World) pullOpLocked(a *Actor) *opSpec {
 		a.done = true
 		return nil
 	}
+	if w.free {
+		w.step++ // logical clock
+	}
 	rec := &OpRec{Seq: len(w.tr.Ops), Actor: a.name, RPC: a.rpc, Side: a.side, Kind: op.kind, Idx: op.idx, Start: w.step, End: -1, Code: CodeNil}
 	w.tr.Ops = append(w.tr.Ops, rec)
 	a.cur = rec
@@ -1081,6 +1124,9 @@ func (w *World) runOp(a *Actor, op *opSpec) {
 	rec := a.cur
 	op.run(rec)
 	w.mu.Lock()
+	if w.free {
+		w.step++
+	}
 	rec.End = w.step
 	rec.Phase = w.phase
 	a.busy = false
@@ -1165,12 +1211,16 @@ func (v verifCreds) RequireTransportSecurity() bool { return v.c.RequireTLS }
 func (w *World) callCtx(r *rpcState) (context.Context, []grpc.CallOption) {
 	sp := r.spec
 	ctx := context.Background()
+	var cancel context.CancelFunc
 	if sp.Timeout > 0 {
 		w.addTimer(time.Now().Add(time.Duration(sp.Timeout) * time.Millisecond))
-		ctx, r.cancel = context.WithTimeout(ctx, time.Duration(sp.Timeout)*time.Millisecond)
+		ctx, cancel = context.WithTimeout(ctx, time.Duration(sp.Timeout)*time.Millisecond)
 	} else {
-		ctx, r.cancel = context.WithCancel(ctx)
+		ctx, cancel = context.WithCancel(ctx)
 	}
+	w.mu.Lock()
+	r.cancel = cancel
+	w.mu.Unlock()
 	tag := strconv.Itoa(r.idx)
 	if !sp.NoMD {
 		md := metadata.MD{}
@@ -1205,7 +1255,9 @@ func (w *World) callCtx(r *rpcState) (context.Context, []grpc.CallOption) {
 	if sp.ChanOpt {
 		opts = append(opts, grpctunnel.WithTunnelChannel(&r.chanTarget))
 	}
+	w.mu.Lock()
 	r.ctx = ctx
+	w.mu.Unlock()
 	return ctx, opts
 }
 
@@ -1556,7 +1608,8 @@ func (w *World) opHeader(r *rpcState, rec *OpRec) {
 		setErr(rec, err)
 		rec.MD = cloneMD(md)
 		rec.HasMD = md != nil
-		if r.spec.HdrOpt {
+		if r.spec.HdrOpt && err == nil {
+			// (a Header() that failed, e.g. because the RPC was cancelled, is not a completion signal for the target)
 			rec.HeaderOptNow = cloneMD(r.hdrTarget)
 		}
 	})
@@ -1703,9 +1756,22 @@ func (w *World) handlerWait(a *Actor) {
 	for {
 		var op *opSpec
 		if w.free {
-			w.mu.Lock()
-			op = w.pullOpLocked(a)
-			w.mu.Unlock()
+			for {
+				w.mu.Lock()
+				ok := a.enabled == nil || a.enabled() || a.done
+				if ok {
+					op = w.pullOpLocked(a)
+				}
+				w.mu.Unlock()
+				if ok {
+					break
+				}
+				select {
+				case <-w.quit:
+					return
+				case <-time.After(20 * time.Microsecond):
+				}
+			}
 		} else {
 			select {
 			case op = <-a.cmd:
@@ -1789,7 +1855,7 @@ func unaryHandler(srv any, ctx context.Context, dec func(any) error, _ grpc.Unar
 		case 1:
 			if decErr != nil {
 				stage = 3
-				return &opSpec{kind: "return", run: func(rec *OpRec) { retErr = decErr; setErr(rec, retErr); a.done = true }}
+				return &opSpec{kind: "return", run: func(rec *OpRec) { retErr = decErr; setErr(rec, retErr); w.markDone(a) }}
 			}
 			for opi < len(sp.HOps) {
 				op := sp.HOps[opi]
@@ -1820,7 +1886,7 @@ func unaryHandler(srv any, ctx context.Context, dec func(any) error, _ grpc.Unar
 					resp = msgOf(payload(r.idx, 'p', 0, size))
 				}
 				setErr(rec, retErr)
-				a.done = true
+				w.markDone(a)
 			}}
 		}
 		return nil
@@ -1972,7 +2038,7 @@ func streamHandlerFor(shape string) grpc.StreamHandler {
 						retErr = status.FromContextError(ctx.Err()).Err()
 					}
 					setErr(rec, retErr)
-					as.done = true
+					w.markDone(as)
 				}}
 			}
 			return nil
@@ -2197,6 +2263,27 @@ func (w *World) releaseStalled() {
 	w.mu.Unlock()
 }
 
+func (w *World) markDone(a *Actor) {
+	w.mu.Lock()
+	a.done = true
+	w.mu.Unlock()
+}
+
+func (w *World) serverAt(i int) *revServer {
+	w.mu.Lock()
+	defer w.mu.Unlock()
+	if i >= 0 && i < len(w.servers) {
+		return w.servers[i]
+	}
+	return nil
+}
+
+func (w *World) allServers() []*revServer {
+	w.mu.Lock()
+	defer w.mu.Unlock()
+	return append([]*revServer(nil), w.servers...)
+}
+
 // stall reports whether an actor created now should start stalled.
 func (w *World) stall(flag bool) bool {
 	w.mu.Lock()
@@ -2252,12 +2339,12 @@ func (w *World) fire(i int) {
 			rec.Returned = rec.Fired
 		}
 	case "stop":
-		if ev.Target < len(w.servers) {
-			async(w.servers[ev.Target].rs.Stop)
+		if sv := w.serverAt(ev.Target); sv != nil {
+			async(sv.rs.Stop)
 		}
 	case "graceful_stop":
-		if ev.Target < len(w.servers) {
-			async(w.servers[ev.Target].rs.GracefulStop)
+		if sv := w.serverAt(ev.Target); sv != nil {
+			async(sv.rs.GracefulStop)
 		}
 	case "initiate_shutdown":
 		w.handler.InitiateShutdown()
@@ -2372,7 +2459,7 @@ func (w *World) endTunnels() {
 		}
 	}
 	// stop reverse servers that never got a tunnel up, cancel opening contexts
-	for _, rs := range w.servers {
+	for _, rs := range w.allServers() {
 		go rs.rs.Stop()
 	}
 	w.settle()
